@@ -456,6 +456,81 @@ class Series:
             out = [np._div(v, cnt) for v in out]
         return Series(out, list(self._index), self.name)
 
+    # ---- vectorised helpers a refactoring is likely to reach for
+    def _like(self, vals):
+        return Series(list(vals), list(self._index), self.name)
+
+    def shift(self, periods=1, fill_value=None):
+        n = len(self._vals)
+        k = int(periods)
+        fill = f64('nan') if fill_value is None else fill_value
+        if k >= 0:
+            vals = [fill] * builtins.min(k, n) + list(self._vals[:builtins.max(n - k, 0)])
+        else:
+            vals = list(self._vals[-k:]) + [fill] * builtins.min(-k, n)
+        if fill_value is None and _col_kind(self._vals) in ('i', 'b') and k != 0 and n:
+            if _col_kind(self._vals) == 'b':
+                raise ModelGap("shift of a boolean Series (object dtype)")
+            vals = [np._coerce(v, 'f') if i_ok else v for v, i_ok in zip(vals, [True] * len(vals))]
+        return self._like(vals)
+
+    def diff(self, periods=1):
+        if int(periods) != 1:
+            raise ModelGap("Series.diff(periods != 1)")
+        if _col_kind(self._vals) == 'b':
+            raise ModelGap("Series.diff of booleans")
+        vals = [f64('nan')] + [np._coerce(self._vals[i] - self._vals[i - 1], 'f') for i in range(1, len(self._vals))]
+        return self._like(vals[:len(self._vals)])
+
+    def cumsum(self):
+        if _narrow_cells(self._vals):
+            raise ModelGap("cumsum of machine-integer cells")
+        out, tot = [], 0
+        for v in self._vals:
+            if isinstance(v, (bool, SymBool)):
+                v = int(v) if isinstance(v, bool) else v._int()
+            tot = tot + v
+            out.append(tot)
+        return self._like(out)
+
+    def clip(self, lower=None, upper=None):
+        vals = list(self._vals)
+        if lower is not None:
+            vals = [symx.ite(v < lower, lower, v) if not symx.truth(np.isnan(v) if isinstance(v, (float, SymFloat)) else False) else v for v in vals]
+        if upper is not None:
+            vals = [symx.ite(v > upper, upper, v) if not symx.truth(np.isnan(v) if isinstance(v, (float, SymFloat)) else False) else v for v in vals]
+        return self._like(vals)
+
+    def isin(self, values):
+        values = list(values._vals) if isinstance(values, Series) else (values._flat_values() if isinstance(values, np.ndarray) else list(values))
+        out = []
+        for v in self._vals:
+            r = False
+            for w in values:
+                r = np._or(r, np._as_boolval(v == w))
+            out.append(r)
+        res = self._like(out)
+        res._kind_hint = 'b'
+        return res
+
+    def between(self, left, right, inclusive='both'):
+        lo = (self >= left) if inclusive in ('both', 'left') else (self > left)
+        hi = (self <= right) if inclusive in ('both', 'right') else (self < right)
+        return lo & hi
+
+    def where(self, cond, other=None):
+        cv = self._align(cond)
+        ov = [f64('nan')] * len(self._vals) if other is None else self._align(other)
+        if other is None and _col_kind(self._vals) in ('i', 'b'):
+            raise ModelGap("Series.where introducing NaN into an integer / boolean Series")
+        return self._like([symx.ite(np._as_boolval(c), v, o) for c, v, o in zip(cv, self._vals, ov)])
+
+    def mask(self, cond, other=None):
+        return self.where(~cond if isinstance(cond, (Series, np.ndarray)) else [np._not(c) for c in cond], other)
+
+    def fillna(self, value):
+        return self._like([symx.ite(np._as_boolval(np.isnan(v)), value, v) if isinstance(v, (float, SymFloat)) else v for v in self._vals])
+
     def to_frame(self):
         return DataFrame({self.name: self})
 
